@@ -112,6 +112,25 @@ def spec_defs(text):
     return out
 
 
+def trait_defs(text):
+    """name -> whitespace- and comment-free text of every `pub trait Name ... { ... }` declaration"""
+    out = {}
+    text = re.sub(r'//.*', '', text)
+    for m in re.finditer(r'\bpub\s+trait\s+(\w+)', text):
+        j = text.index('{', m.end())
+        depth = 0
+        while j < len(text):
+            if text[j] == '{':
+                depth += 1
+            elif text[j] == '}':
+                depth -= 1
+                if depth == 0:
+                    break
+            j += 1
+        out[m.group(1)] = re.sub(r'\s+', '', text[m.start():j + 1])
+    return out
+
+
 def compare_spec_fns(clauses, imp_defs, exp_defs, what):
     """every spec function mentioned (transitively) by imported clauses and defined in BOTH units must have the same definition"""
     problems, seen = [], set()
@@ -148,6 +167,24 @@ def check_imports(template_path, all_units):
                 if not any(k2 == n or k2.endswith('::' + n) for k2 in imp) or not any(k2 == n or k2.endswith('::' + n) for k2 in exp):
                     problems.append('same-spec %s :: %s: not defined in both units' % (unit, n))
             problems += compare_spec_fns(names.split(), imp, exp, 'same-spec %s' % unit)
+            continue
+        if s.startswith('//@@ same-trait '):
+            # //@@ same-trait <unit> :: Name ...   -- trait declarations (with the contracts on their methods) this unit repeats from
+            # another unit: what is proved against the declaration here is used against the declaration there, so the two texts must agree
+            unit, _, names = s[len('//@@ same-trait '):].partition('::')
+            unit = unit.strip()
+            if unit not in all_units:
+                problems.append('same-trait of unknown unit %s' % unit); continue
+            imp, exp = trait_defs(open(template_path).read()), trait_defs(open(all_units[unit]['path']).read())
+            for n in names.split():
+                if n not in imp or n not in exp:
+                    problems.append('same-trait %s :: %s: not declared in both units' % (unit, n))
+                elif imp[n] != exp[n]:
+                    problems.append('same-trait %s :: %s: the two declarations differ' % (unit, n))
+            # the spec functions the declarations mention must agree as well
+            both = ' '.join(imp.get(n, '') for n in names.split())
+            problems += compare_spec_fns([both], spec_defs(open(template_path).read()), spec_defs(open(all_units[unit]['path']).read()),
+                                         'same-trait %s' % unit)
             continue
         if not s.startswith('//@@ import '):
             continue
